@@ -138,7 +138,16 @@ class TreeScenario:
 
     def build_unstable(self, it, prog, thr, net, tree=None, outpoints_cache=None, next_block_headers=None):
         tree = tree or self.build_tree(it, prog)
-        tip_depths = VecV()
+        # state invariant of UnstableBlocks: tip_depths_cache == tree.tip_depths() (same stack order as BlockTree::tip_depths)
+        depths, stack = [], [(1, 1)]
+        while stack:
+            node, dep = stack.pop()
+            if not self.ch[node]:
+                depths.append(dep)
+            else:
+                for c in self.ch[node]:
+                    stack.append((c, dep + 1))
+        tip_depths = VecV([Cell(SInt(x, 'usize')) for x in depths])
         return H.mk_struct(prog, 'GenericUnstableBlocks', stability_threshold=thr, tree=tree,
                            outpoints_cache=outpoints_cache if outpoints_cache is not None else Opaque('outpoints_cache'),
                            network=network(prog, net),
